@@ -127,6 +127,9 @@ def main():
         # of short-lived processes over the same corpus directory (as the proptest workers are
         # recycled every chunk); the byte-level targets have no such threads and run in one go
         per_round = PER_ROUND.get(pid, 300) if target == "prop_case" else runs
+        if target == "prop_case":
+            # every round re-reads the corpus: more than ~20 rounds per job cost more than they find
+            runs = min(runs, 20 * per_round)
         agg = {"target": target, "jobs": jobs, "new_inputs_per_job": runs, "max_len": max_len, "executions": 0,
                "distinct_nontrivial": 0, "corpus_units": 0, "cov_max": 0, "ft_max": 0, "samples": []}
         lock = threading.Lock()
